@@ -1716,6 +1716,8 @@ def search(ctx):
     c17_simlevel.round4_search(ctx)
     from harness.props import c17_timepar
     c17_timepar.round5_search(ctx, targets)
+    from harness.props import c17_spell
+    c17_spell.search(ctx)      # every zoo configuration with a dict-spec spelling: module objects vs dict specs, identical simulations
     # (a) applied or rejected: sampled over class x parameter x kind x route (exhaustive when something broke / thorough)
     pool = []
     for cls, probe in targets:
@@ -1822,6 +1824,9 @@ def replay(ctx, data):
     from harness.props import c17_timepar
     r5 = c17_timepar.replay(ctx, data)
     if r5 is not None: return r5
+    from harness.props import c17_spell
+    r6 = c17_spell.replay(ctx, data)
+    if r6 is not None: return r6
     k = data.get('kind')
     if k == 'apply':
         return bool(oracle_apply(resolve_cls(data['cls'], data.get('probe')), data['par'], data['nk'], data['tok'], data['route'], data.get('probe', False)))
